@@ -560,7 +560,7 @@ def run_history(ctx, case) -> None:
 def run(ctx):
     global _INSTALLED
     rng = ctx.rng("worlds")
-    for i in ctx.cases(ctx.quota(2500, 200000)):
+    for i in ctx.cases(ctx.quota(2500, 160000)):
         world = G.make_world(rng)
         if not world["protoclusters"] and not world["subregions"]:
             continue
